@@ -471,7 +471,7 @@ Proof.
   - (* non-recurring *)
     apply (nonrec_spec fuel2 md base den sep neg ip _ ign num Hb Hd Hn O num 0 0 None [] []) in Hnr;
       try reflexivity; try (left; reflexivity); try (intros; reflexivity).
-    destruct Hnr as (j' & nz' & tz' & i' & Hds & _ & Hex & _ & _ & _ & Hnil & Hnon & _). fold b in Hds, Hex.
+    destruct Hnr as (j' & nz' & tz' & i' & Hds & _ & Hex & _ & _ & _ & Hnil & Hnon & _ & _ & _). fold b in Hds, Hex.
     symmetry in Hex. apply N.eqb_eq in Hex.
     pose proof (iter_identity b den j' num Hd) as Hid. rewrite Hex, Hds in Hid.
     rewrite digits_val_app, digits_val_zeros, repeat_length in Hid.
